@@ -49,7 +49,7 @@ def strategy(tier):
                           pol=pol, ipol=ipol, delay_set=dl)
     roles = kgen.programs_roles([VICTIM, VICTIM, ATTACK, ATTACK, WEIGHTS], max_instrs=8, max_start=8 if big else 6,
                                 max_nev=2, min_start=3, pol=pol, ipol=ipol, delay_set=[0, 1, 2, 0.5, 1])
-    return kgen.st.one_of(roles, roles, mixed)
+    return kgen.weighted([(roles, 2), (mixed, 1)])
 
 
 PROP = Property(
